@@ -363,17 +363,41 @@ func globalNameOf(chunk string) (name string, isGlobal bool) {
 	return "", false
 }
 
+// unnamedGlobalChunk reports whether chunk defines an unnamed global (@N): LLVM
+// numbers those by order of appearance, so their relative order is part of
+// the module and permutations keep it.
+func unnamedGlobalChunk(chunk string) bool {
+	name, isG := globalNameOf(chunk)
+	if !isG || name == "" {
+		return false
+	}
+	at := strings.Index(chunk, "@")
+	if at >= 0 && strings.HasPrefix(chunk[at:], "@\"") {
+		return false
+	}
+	for i := 0; i < len(name); i++ {
+		if name[i] < '0' || name[i] > '9' {
+			return false
+		}
+	}
+	return true
+}
+
+func globalKey(name string, unnamed bool) string {
+	if unnamed {
+		return "#" + name
+	}
+	return "n:" + name
+}
+
 func orderSensitive(text string, chunks []string) string {
 	if strings.Contains(text, "uselistorder") {
 		return "uselistorder"
 	}
 	seen := map[string]bool{}
 	for _, c := range chunks {
-		name, isG := globalNameOf(c)
-		if isG {
-			if name == "" || (name[0] >= '0' && name[0] <= '9' && !strings.Contains(c, "@\"")) {
-				return "unnamed global"
-			}
+		if name, isG := globalNameOf(c); isG && name == "" {
+			return "unnamed global (no @N)"
 		}
 		head := c
 		if i := strings.Index(c, "="); i > 0 {
@@ -470,6 +494,18 @@ func c20Perm(r *fw.Rec, s corpus.Source) {
 		}
 	}
 	done := 0
+	isUnnamed := map[int]bool{}
+	var unnamedIdx []int
+	for i, c := range chunks {
+		if unnamedGlobalChunk(c) {
+			isUnnamed[i] = true
+			unnamedIdx = append(unnamedIdx, i)
+		}
+	}
+	if len(unnamedIdx) > 0 {
+		r.Tally("permutations", "modules_with_unnamed_globals")
+	}
+	seenPerm := map[string]bool{}
 	for _, p := range perms {
 		ident := true
 		for i, v := range p {
@@ -480,13 +516,29 @@ func c20Perm(r *fw.Rec, s corpus.Source) {
 		if ident {
 			continue
 		}
+		// unnamed globals keep their relative order: the slots the permutation
+		// gives to unnamed-global chunks are filled in the original order
+		if len(unnamedIdx) > 1 {
+			p = append([]int(nil), p...)
+			k := 0
+			for i, idx := range p {
+				if isUnnamed[idx] {
+					p[i] = unnamedIdx[k]
+					k++
+				}
+			}
+			if seenPerm[fmt.Sprint(p)] {
+				continue
+			}
+		}
+		seenPerm[fmt.Sprint(p)] = true
 		var sb strings.Builder
 		var order []string
 		sb.WriteString(prefix)
 		for _, idx := range p {
 			sb.WriteString(chunks[idx])
 			if name, isG := globalNameOf(chunks[idx]); isG {
-				order = append(order, name)
+				order = append(order, globalKey(name, isUnnamed[idx]))
 			}
 		}
 		ptext := sb.String()
@@ -531,10 +583,24 @@ func c20Perm(r *fw.Rec, s corpus.Source) {
 }
 
 func reorderModule(m *ir.Module, pos map[string]int) {
-	sort.SliceStable(m.Globals, func(i, j int) bool { return pos[m.Globals[i].GlobalName] < pos[m.Globals[j].GlobalName] })
-	sort.SliceStable(m.Aliases, func(i, j int) bool { return pos[m.Aliases[i].GlobalName] < pos[m.Aliases[j].GlobalName] })
-	sort.SliceStable(m.IFuncs, func(i, j int) bool { return pos[m.IFuncs[i].GlobalName] < pos[m.IFuncs[j].GlobalName] })
-	sort.SliceStable(m.Funcs, func(i, j int) bool { return pos[m.Funcs[i].GlobalName] < pos[m.Funcs[j].GlobalName] })
+	key := func(name string, id int64) string {
+		if name == "" {
+			return globalKey(fmt.Sprint(id), true)
+		}
+		return globalKey(name, false)
+	}
+	sort.SliceStable(m.Globals, func(i, j int) bool {
+		return pos[key(m.Globals[i].GlobalName, m.Globals[i].GlobalID)] < pos[key(m.Globals[j].GlobalName, m.Globals[j].GlobalID)]
+	})
+	sort.SliceStable(m.Aliases, func(i, j int) bool {
+		return pos[key(m.Aliases[i].GlobalName, m.Aliases[i].GlobalID)] < pos[key(m.Aliases[j].GlobalName, m.Aliases[j].GlobalID)]
+	})
+	sort.SliceStable(m.IFuncs, func(i, j int) bool {
+		return pos[key(m.IFuncs[i].GlobalName, m.IFuncs[i].GlobalID)] < pos[key(m.IFuncs[j].GlobalName, m.IFuncs[j].GlobalID)]
+	})
+	sort.SliceStable(m.Funcs, func(i, j int) bool {
+		return pos[key(m.Funcs[i].GlobalName, m.Funcs[i].GlobalID)] < pos[key(m.Funcs[j].GlobalName, m.Funcs[j].GlobalID)]
+	})
 }
 
 func allPerms(n int) [][]int {
